@@ -124,6 +124,7 @@ func populateLabels(lset labels.Labels, cfg *config.ScrapeConfig) (res, orig lab
 func targetsFromGroup(tg *targetgroup.Group, cfg *config.ScrapeConfig) ([]*SDTargets, error) {
 	targets := make([]*SDTargets, 0, len(tg.Targets))
 	exists := map[uint64]bool{}
+	var failures []string
 
 	for i, tlset := range tg.Targets {
 		lbls := make([]labels.Label, 0, len(tlset)+len(tg.Labels))
@@ -141,7 +142,9 @@ func targetsFromGroup(tg *targetgroup.Group, cfg *config.ScrapeConfig) ([]*SDTar
 
 		lbls, origLabels, err := populateLabels(lset, cfg)
 		if err != nil {
-			return nil, errors.Wrapf(err, "instance %d in group %s", i, tg)
+			// skip only the bad instance and keep the others of this group, like prometheus does
+			failures = append(failures, errors.Wrapf(err, "instance %d in group %s", i, tg).Error())
+			continue
 		}
 
 		if lbls != nil || origLabels != nil {
@@ -163,6 +166,9 @@ func targetsFromGroup(tg *targetgroup.Group, cfg *config.ScrapeConfig) ([]*SDTar
 				},
 			})
 		}
+	}
+	if len(failures) != 0 {
+		return targets, errors.New(strings.Join(failures, "; "))
 	}
 	return targets, nil
 }
